@@ -102,7 +102,12 @@ def rules(model: Model, tier: str) -> List[RuleResult]:
             KT.bad(ROOTFINDER + "::_METHODS", fwd_table_node(model, name) or model.func(ROOTFINDER, "_RootFinder.forward").node,
                    "the %s table offers %r = %s, which is %s algorithm: it meets its own stopping test at a point that does not solve the %s problem"
                    % (label, name, fi_.fq, ("a " + k_) if k_ else "not a known", label), file=ROOTFINDER)
-    return [W, W2, P, RC, RZ, RB, SH, TC, KT, _R11]
+    # the family (rootfinder / equilibrium / minimizer) an algorithm is run in is chosen by comparing the method name before get_method sees
+    # it: those comparisons must be case-insensitive like the dispatch itself, or "Anderson_Acc" is iterated on y - f(y) (shared with C18-C)
+    from .c18 import _case
+    CS = RuleResult(PROP, "C03-C", "pre-dispatch comparisons of `method` are case-insensitive (the family an algorithm runs in does not depend on the spelling)", min_instances=4)
+    _case(model, CS)
+    return [W, W2, P, RC, RZ, RB, SH, TC, KT, CS, _R11]
 
 
 def fwd_table_node(model: Model, name: str):
